@@ -88,9 +88,14 @@ def renders(linker, fname, pname, depth=0, seen=None):
     found = [False]
     # locals that stand for (an iterator over / a view of) the parameter: `let mut tables = from.iter();`
     names = {pname}
-    for n_ in walk(t.body):
-        if n_.get("k") == "stmt_let" and n_.get("init") is not None and n_["pat"].get("k") == "bind" and L.mentions_param(n_["init"], pname):
-            names.add(n_["pat"]["name"])
+    for _pass in range(3):
+        for n_ in walk(t.body):
+            # `let x = p.iter();`, `let Some((head, tail)) = p.split_first() else {..}`, `if let Some(x) = p.first()`, `for x in p`
+            if n_.get("k") in ("stmt_let", "let") and isinstance(n_.get("init"), dict) and isinstance(n_.get("pat"), dict) and \
+                    any(L.mentions_param(n_["init"], nm) for nm in names):
+                for b_ in walk(n_["pat"]):
+                    if b_.get("k") == "bind" and b_.get("name"):
+                        names.add(b_["name"])
 
     def node_mentions(n):
         return isinstance(n, dict) and any(L.mentions_param(n, nm) for nm in names)
